@@ -70,10 +70,11 @@ check("C18", "index invariants", "exploration",
 check("C01", "served content hashes to its digest", "exploration",
       "rapid state machine over upload protocols/algorithms/wrong digests; oracle = independent re-hash of every served body + refusal + blob-file scan",
       "Randomised stateful search over upload protocols (monolithic, POST+PUT, chunked with drawn boundaries), session/final algorithm combinations, interleaved sessions, "
-      "mounts and manifest pushes with correct and wrong digests on both stores; every body served for any digest or tag of the case is re-hashed independently.",
+      "mounts and manifest pushes with correct and wrong digests on both stores; every body served for any digest or tag of the case is re-hashed independently. "
+      "A second state machine drives the upload object of both stores directly (Write/Verify/ChangeAlgorithm in any order, then Close or Cancel): the name a blob is committed under must be the digest of all bytes written.",
       "Trusted: crypto/sha256, crypto/sha512 of the Go standard library as the reference hash; in-process transport (httptest) instead of a socket.",
       "DESIGN.md §3 C01",
-      [R("^TestC01$", 3000, 120000, steps=25)])
+      [R("^TestC01$", 3000, 120000, steps=25), R("^TestC01Store$", 8000, 400000, steps=20)])
 
 check("C02", "acknowledged pushes read back identically", "exploration",
       "rapid state machine vs reference model (bytes, length, digest, media type, range slices) over push/delete/collect/restart histories",
